@@ -90,8 +90,14 @@ def build(MIN, SIZE, J, with_close):
         ev.store_back(ctx, recv, recv.term & ~bit(args[0].term, n))
         return NONE
 
+    def set_discard(ev, ctx, recv, args):
+        n = dom.count(recv.cls)
+        ev.store_back(ctx, recv, recv.term & ~bit(args[0].term, n))
+        return NONE
+
     def set_contains(ev, ctx, recv, args):
         return A_bool(member(recv.term, args[0].term, dom.count(recv.cls)))
+    dom.methods[("set", "discard")] = set_discard
     dom.methods[("set", "pop")] = set_pop
     dom.methods[("set", "add")] = set_add
     dom.methods[("set", "remove")] = set_remove
